@@ -19,6 +19,7 @@
    session <FILE> <dead-paths> <op>...  -> <file'> LOAD(file')  |  unsafe <code>  |  unsafe c<code> (Recompact)
         Load; OpenForWrite (Recompact when the load asked for it; live = not in dead-paths); RecordDeps...; Close
    recompact <FILE> <dead-paths>        -> <file'|nofile> LOAD(file')  |  unsafe ...       ninja -t recompact
+   sessionx86 / recompactx86            -> the same with the x86 reader (no misaligned-load class)
    view <FILE> <out-paths>              -> badheader | unsafe <code> | <v> <v> ...   GetDeps of each path after Load,
         v = none | <mtime>:<path-hex>+<path-hex>.. ("-" no deps, "?" dangling id)
    spec <out-paths> <op>...             -> <v> <v> ...                 abstract_ops: the latest RecordDeps per output
@@ -116,24 +117,34 @@ let do_case (l : string) : string =
   match split_ws l with
   | ["load"; f] -> show_load (load_deps (file_of f))
   | ["loadx86"; f] -> show_load (load_deps_x86 (file_of f))
-  | "session" :: f :: dead :: ops ->
+  | ("session" | "sessionx86" as c) :: f :: dead :: ops ->
+    let strict = (c = "session") in
     let file = file_of f and live = live_of (paths_of dead) and ops = List.map op_of ops in
-    (match load_deps file with
+    (match load_deps_gen strict file with
      | DUnsafe w -> "unsafe " ^ string_of_int (int_of_nat w)
      | DOk (s, _, true) when (match recompact_r live s with CUnsafe _ -> true | _ -> false) ->
        (match recompact_r live s with CUnsafe w -> "unsafe c" ^ string_of_int (int_of_nat w) | _ -> "?")
      | _ ->
-       let f2 = session live file ops in
-       show_file f2 ^ " " ^ show_load (load_deps f2))
-  | ["recompact"; f; dead] ->
+       let f2 = session_gen strict live file ops in
+       show_file f2 ^ " " ^ show_load (load_deps_gen strict f2))
+  | [("recompact" | "recompactx86" as c); f; dead] ->
+    let strict = (c = "recompact") in
     let file = file_of f and live = live_of (paths_of dead) in
-    (match load_deps file with
+    (match load_deps_gen strict file with
      | DUnsafe w -> "unsafe " ^ string_of_int (int_of_nat w)
      | DOk (s, _, _) when (match recompact_r live s with CUnsafe _ -> true | _ -> false) ->
        (match recompact_r live s with CUnsafe w -> "unsafe c" ^ string_of_int (int_of_nat w) | _ -> "?")
-     | _ ->
-       let f2 = recompact_file live file in
-       if f2 = [] then "nofile nofile" else show_file f2 ^ " " ^ show_load (load_deps f2))
+     | r ->
+       (* recompact_file, for either alignment variant *)
+       let f2 = if strict then recompact_file live file else
+           (match r with
+            | DOk (s, tr, _) ->
+              (match recompact_r live s with
+               | COk (_, f) -> f
+               | _ -> (match tr with Some k -> firstn k file | None -> file))
+            | DBadHeader -> []
+            | _ -> file) in
+       if f2 = [] then "nofile nofile" else show_file f2 ^ " " ^ show_load (load_deps_gen strict f2))
   | ["view"; f; outs] ->
     (match load_deps (file_of f) with
      | DBadHeader -> "badheader"
